@@ -32,6 +32,24 @@ def parseTok (t : String) (maxBody : Nat) : Option BOp :=
     | 'u' => (parseTy r).map BOp.use
     | 't' => (parseTy r).map BOp.take
     | 'e' => ((parseNat r).filter (· < maxBody)).map BOp.effect
+    | 'E' => ((parseNat r).filter (· < maxBody)).map BOp.effect
+    | 'I' => ((parseNat r).filter (· < maxBody)).map BOp.effect
+    | 'v' => ((parseNat r).filter (· < maxBody)).map BOp.render
+    | 'a' => ((parseNat r).filter (· < maxBody)).map BOp.async
+    | 'w' =>
+      match r.splitOn "." with
+      | [a, b] => do
+        let b1 ← (parseNat a).filter (· < maxBody)
+        let b2 ← (parseNat b).filter (· < maxBody)
+        pure (BOp.watch b1 b2 false)
+      | _ => none
+    | 'W' =>
+      match r.splitOn "." with
+      | [a, b] => do
+        let b1 ← (parseNat a).filter (· < maxBody)
+        let b2 ← (parseNat b).filter (· < maxBody)
+        pure (BOp.watch b1 b2 true)
+      | _ => none
     | 'm' => ((parseNat r).filter (· < maxBody)).map BOp.memo
     | 'o' => if rest.isEmpty then some BOp.newOwner else none
     | _ => none
@@ -56,6 +74,10 @@ def parseOp (st : St) (ws : List String) : Option Op := do
   match rest with
   | ["x", tok] => (parseTok tok nb).map fun b => Op.act ins (Act.x b)
   | ["cleanup", o] => (parseNat o).map fun o => Op.act ins (Act.cleanup o)
+  | ["wc", o, b] => do
+    let o ← parseNat o
+    let b ← (parseNat b).filter (· < nb)
+    pure (Op.act ins (Act.wc o b))
   | _ =>
     if !ins.isEmpty then none else
     match rest with
@@ -91,6 +113,7 @@ def showEv : Ev → String
   | .g m v => s!"G{m}={showOpt v}"
   | .u ty v => s!"U{ty}={showOpt v}"
   | .t ty v => s!"T{ty}={showOpt v}"
+  | .h e => s!"H{e}"
 
 /-- status of every retained handle, in the harness's order: items, signals, memos, effects, owners -/
 def statuses (st : St) : List (String × String) :=
@@ -112,8 +135,15 @@ def statuses (st : St) : List (String × String) :=
       | none => "d")
   items ++ sigs ++ memos ++ effs ++ owners
 
+def isRender (st : St) (k : Nat) : Bool :=
+  match st.effs[k]? with
+  | some er => er.kind == EffKind.render
+  | none => false
+
+/-- live retained *arena* handles (a `RenderEffect` is not an arena entry) -/
 def liveCount (st : St) : Nat :=
   ((statuses st).filter fun (n, s) => !n.startsWith "o" && s != "x").length
+    - ((List.range st.effs.length).filter fun k => isRender st k && effLive st k).length
 
 structure DSt where
   st : St := {}
@@ -126,7 +156,7 @@ def step (d : DSt) (line : String) : DSt × String :=
     match parseOp d.st ws with
     | none => (d, "bad-op")
     | some op =>
-      let st0 := { d.st with staleHit := false }
+      let st0 := { d.st with staleHit := false, watchHit := false }
       match stepOp st0 op with
       | none => (d, "noop")
       | some st =>
@@ -136,7 +166,8 @@ def step (d : DSt) (line : String) : DSt × String :=
           let evs := (st.log.drop st0.log.length).map showEv
           let cur := statuses st
           let changes := cur.filter fun (n, s) => (d.prev.lookup n) != some s
-          let verdict := if st.staleHit then "fail ctx-survives-cleanup" else "ok"
+          let verdict := if st.staleHit then "fail ctx-survives-cleanup"
+            else if st.watchHit then "fail watch-handler-unowned" else "ok"
           let e := if evs.isEmpty then "-" else ",".intercalate evs
           let c := if changes.isEmpty then "-" else ",".intercalate (changes.map fun (n, s) => s!"{n}={s}")
           ({ st := st, prev := cur }, s!"{e} | {c} | live={liveCount st} ## {verdict}")
